@@ -9,9 +9,11 @@ import (
 	"errors"
 	"fmt"
 	"net/netip"
+	"os"
 	"reflect"
 	"runtime"
 	"sort"
+	"strconv"
 	"strings"
 	"sync"
 	"sync/atomic"
@@ -101,7 +103,9 @@ func c07Mint(curve cert.Curve, cipher string) (*c07World, error) {
 		return nil, err
 	}
 	w := &c07World{curve: curve, cipher: cipher, ncs: ncs, dhLen: ncs.DHLen(), pool: ct.NewTestCAPool(ca)}
-	w.verify = func(c cert.Certificate) (*cert.CachedCertificate, error) { return w.pool.VerifyCertificate(vtime.Now(), c) }
+	w.verify = func(c cert.Certificate) (*cert.CachedCertificate, error) {
+		return w.pool.VerifyCertificate(vtime.Now(), c)
+	}
 	mk := func(name, addr string, signer cert.Certificate, key []byte, notAfter vtime.Time) *c07Peer {
 		c, _, keyPEM, _ := ct.NewTestCert(cert.Version2, curve, signer, key, name, nb, notAfter, []netip.Prefix{netip.MustParsePrefix(addr)}, nil, nil)
 		p, e := c07Peerify(c, keyPEM, ncs)
@@ -274,7 +278,9 @@ func c07Alphabet(x *c07Ctx) []c07Rej {
 		add(fmt.Sprintf("truncate to %d bytes", l), "truncate: "+region, boundary[l], func(x *c07Ctx) []byte { return append([]byte{}, x.genuine[:l]...) })
 	}
 	add("append 1 zero byte", "extend", true, func(x *c07Ctx) []byte { return append(append([]byte{}, x.genuine...), 0) })
-	add("append 16 bytes", "extend", false, func(x *c07Ctx) []byte { return append(append([]byte{}, x.genuine...), bytes.Repeat([]byte{0xa5}, 16)...) })
+	add("append 16 bytes", "extend", false, func(x *c07Ctx) []byte {
+		return append(append([]byte{}, x.genuine...), bytes.Repeat([]byte{0xa5}, 16)...)
+	})
 	// 2. every single-bit flip
 	firstOf := map[string]bool{}
 	for bit := 0; bit < 8*n; bit++ {
@@ -370,7 +376,9 @@ func c07Alphabet(x *c07Ctx) []c07Rej {
 		add("crafted: responder certificate expired", "crafted: fatal content", true, func(x *c07Ctx) []byte { return x.craft(x.w.X, nil, c07GoodPayload(x.w.X)) })
 		add("crafted: certificate of another key", "crafted: fatal content", true, func(x *c07Ctx) []byte { return x.craft(x.w.B, nil, c07GoodPayload(x.w.B2)) })
 		add("crafted: empty payload", "crafted: fatal content", true, func(x *c07Ctx) []byte { return x.craft(x.w.B, nil, func(uint32) []byte { return nil }) })
-		add("crafted: garbage payload", "crafted: fatal content", true, func(x *c07Ctx) []byte { return x.craft(x.w.B, nil, func(uint32) []byte { return []byte{0xff, 0xff, 0xff} }) })
+		add("crafted: garbage payload", "crafted: fatal content", true, func(x *c07Ctx) []byte {
+			return x.craft(x.w.B, nil, func(uint32) []byte { return []byte{0xff, 0xff, 0xff} })
+		})
 		add("crafted: responder index 0", "crafted: fatal content", true, func(x *c07Ctx) []byte {
 			return x.craft(x.w.B, nil, func(ii uint32) []byte {
 				return handshake.MarshalPayload(nil, handshake.Payload{Cert: x.w.B.hsb, InitiatorIndex: ii, Time: 1, CertVersion: 2})
@@ -781,7 +789,9 @@ func c07HMWorld(r *c07HM, cipher string) (*c07World, error) {
 	// a foreign session between A2 and B2 under the same CA
 	pool := ct.NewTestCAPool(pk.ca)
 	w.pool = pool
-	w.verify = func(c cert.Certificate) (*cert.CachedCertificate, error) { return pool.VerifyCertificate(vtime.Now(), c) }
+	w.verify = func(c cert.Certificate) (*cert.CachedCertificate, error) {
+		return pool.VerifyCertificate(vtime.Now(), c)
+	}
 	var n1, n2 int
 	im, rm := w.machine(w.A2, true, 0x0c0c0c03, &n1), w.machine(w.B2, false, 0x0d0d0d04, &n2)
 	if w.foreign1, err = im.Initiate(nil); err != nil {
@@ -815,6 +825,7 @@ func TestVerifC07(t *testing.T) {
 		worlds = append(worlds, w)
 	}
 	roles := []string{"initiator", "responder"}
+	hmCapped := false // some time cap was hit: vacuity guards that need the whole box are skipped
 
 	par := func(n int, fn func(i int)) bool {
 		var next atomic.Int64
@@ -880,12 +891,16 @@ func TestVerifC07(t *testing.T) {
 	}
 	if !par(len(jobs), func(i int) { c07RunMachineHistory(c, st, jobs[i].x.w, jobs[i].x.role, jobs[i].hist, true) }) {
 		c.Capped("time budget at depth 1")
+		hmCapped = true
 	}
 	depth1 := len(jobs)
 
 	// ---- part 1, depth 2: quick = representatives x representatives; thorough = (whole alphabet x representatives) both ways
 	jobs = jobs[:0]
-	for _, x := range wrs {
+	for wi, x := range wrs {
+		if !c.Thorough() && (wi/2 == 1 || wi/2 == 2) {
+			continue // quick: depth 2 on X25519/AES-GCM and P-256/ChaCha20-Poly1305 only (one cipher per curve)
+		}
 		for _, r1 := range x.reps {
 			for _, r2 := range x.reps {
 				jobs = append(jobs, job{x, []c07Rej{r1, r2}})
@@ -902,10 +917,29 @@ func TestVerifC07(t *testing.T) {
 			}
 		}
 	}
-	if !par(len(jobs), func(i int) { c07RunMachineHistory(c, st, jobs[i].x.w, jobs[i].x.role, jobs[i].hist, false) }) {
-		c.Capped("time budget at depth 2")
+	// depth 2 may use at most 60% of the soft budget so that the manager level is always reached
+	budget := mc.Pick(c, 45.0, 900.0)
+	if f, err := strconv.ParseFloat(os.Getenv("VERIF_BUDGET_S"), 64); err == nil && f > 0 {
+		budget = f
 	}
-	depth2 := len(jobs)
+	var d2stop atomic.Bool
+	var d2done atomic.Int64
+	par(len(jobs), func(i int) {
+		if d2stop.Load() {
+			return
+		}
+		if i&0x3f == 0 && c.Elapsed() > 0.6*budget {
+			d2stop.Store(true)
+			return
+		}
+		c07RunMachineHistory(c, st, jobs[i].x.w, jobs[i].x.role, jobs[i].hist, false)
+		d2done.Add(1)
+	})
+	if d2stop.Load() || c.OutOfTime() {
+		c.Capped("time budget at depth 2")
+		hmCapped = true
+	}
+	depth2 := d2done.Load()
 	machineHistories := st.histories.Load()
 
 	// ---- part 2: HandshakeManager pending state (process-global clock and randomness: strictly serial)
@@ -938,15 +972,16 @@ func TestVerifC07(t *testing.T) {
 		alpha := c07Alphabet(&c07Ctx{w: w, role: "initiator", genuine: probe.m2.Data, sent: probe.stage1.Data})
 		probe.net.close()
 		var hists [][]c07Rej
-		for _, r := range alpha {
-			if c.Thorough() || r.rep || strings.HasPrefix(r.class, "truncate") {
+		var reps []c07Rej
+		for _, r := range alpha { // representatives first: they contain every class, incl. the fatal ones
+			if r.rep {
+				reps = append(reps, r)
 				hists = append(hists, []c07Rej{r})
 			}
 		}
-		var reps []c07Rej
 		for _, r := range alpha {
-			if r.rep {
-				reps = append(reps, r)
+			if !r.rep && (c.Thorough() || strings.HasPrefix(r.class, "truncate")) {
+				hists = append(hists, []c07Rej{r})
 			}
 		}
 		if c.Thorough() {
@@ -963,6 +998,7 @@ func TestVerifC07(t *testing.T) {
 		for _, hist := range hists {
 			if c.OutOfTime() {
 				c.Capped("time budget at manager level")
+				hmCapped = true
 				break
 			}
 			hmHist++
@@ -1085,10 +1121,13 @@ func TestVerifC07(t *testing.T) {
 	}
 	for _, role := range roles {
 		for _, o := range []string{"rejected-usable", "rejected-failed", "accepted", "completed"} {
+			if hmCapped {
+				break
+			}
 			c.Require(st.outcomes[role+"|"+o] > 0, "outcome %q never reached for role %s: %v", o, role, st.outcomes)
 		}
 	}
-	c.Require(hmHist == 0 || (hmKept > 0 && hmDeleted > 0), "manager level: kept=%d deleted=%d", hmKept, hmDeleted)
+	c.Require(hmCapped || (hmKept > 0 && hmDeleted > 0), "manager level: kept=%d deleted=%d", hmKept, hmDeleted)
 	c.Assume("'refused' is read as: an error, no Result and no output message, and Failed() stays true (the statement does not name an error value)")
 	c.Assume("a variant that the side under test ACCEPTS (unauthenticated header bits; stage-1 content that is only authenticated by a later message) is not a rejected message: the history ends there")
 	c.Assume("'exactly as if the rejected message had never arrived' is judged on what the caller can observe: Result fields (indexes, message count, peer certificate), key pairing with the honest peer, allocator calls; at manager level the hostmap views of both nodes, the pending table and the delivery of the queued tun packet, compared with the undisturbed run of the same seed")
